@@ -2803,6 +2803,37 @@ def _run_function_optimizer_pass(opt_pass: _OptimizerPass, graph: ir.Graph) -> N
     opt_pass.function_graph_runner(graph)
 
 
+def _materialize_function_initializers(graph: ir.Graph) -> None:
+    """Turn initializers a pass registered on a function body into Constant nodes.
+
+    A FunctionProto cannot own initializers: whatever a rewrite adds to
+    ``graph.initializers`` (e.g. the remapped axes of the transpose-reduce fold)
+    would be dropped on serialisation and leave its consumer dangling.
+    """
+    pending = [
+        value
+        for value in list(graph.initializers.values())
+        if value.const_value is not None and value.producer() is None
+    ]
+    if not pending:
+        return
+    first_node = next(iter(graph), None)
+    for value in pending:
+        graph.initializers.pop(value.name, None)
+        const_node = ir.Node(
+            "",
+            "Constant",
+            inputs=[],
+            attributes=[ir.AttrTensor("value", value.const_value)],
+            outputs=[value],
+            name=f"{value.name}_const" if value.name else None,
+        )
+        if first_node is None:
+            graph.append(const_node)
+        else:
+            graph.insert_before(first_node, const_node)
+
+
 def optimize_graph(ir_model: ir.Model) -> ir.Model:
     _dbg("optimize_graph invoked")
     for opt_pass in _OPTIMIZER_PASSES:
@@ -2818,5 +2849,6 @@ def optimize_graph(ir_model: ir.Model) -> ir.Model:
         fgr = cast(ir.Graph, graph_obj)
         for opt_pass in _OPTIMIZER_PASSES:
             _run_function_optimizer_pass(opt_pass, fgr)
+        _materialize_function_initializers(fgr)
 
     return ir_model
